@@ -200,6 +200,12 @@ fn non_date_strings() -> Vec<String> {
             }
         }
     }
+    // long non-dates: a multi-byte character at every byte offset 0..=140 (whatever an implementation cuts
+    // or echoes of the rejected value must respect character boundaries)
+    for n in 0..=140usize {
+        v.push(format!("{}\u{00e9}\u{20ac}\u{1f642}{}", "x".repeat(n), "y".repeat(8)));
+        v.push(format!("{}\u{65e5}\u{672c}\u{8a9e}", "-".repeat(n)));
+    }
     for s in ["hello", "T00:00:00Z", " 2999-01-01T00:00:00Z", "\t2999-01-01T00:00:00Z", "x2999-01-01T00:00:00Z", "2999-13-01T00:00:00Z", "2999-1-1T00:00:00Z", "2999-00-10T00:00:00Z", "2999-01-32T00:00:00Z", "next tuesday", "00:00:00Z", "Z", "-", "\u{ff12}999-01-01T00:00:00Z"] {
         v.push(s.to_string());
     }
